@@ -1,5 +1,17 @@
+mod driver;
 mod entropy;
+mod gen;
+mod lint;
+mod minimise;
+mod props;
+mod reader;
 mod rng;
+mod scenario;
+mod snapshot;
+mod t2;
+mod world;
+
+use scenario::Tier;
 
 fn selftest() -> Result<(), String> {
     use std::collections::hash_map::RandomState;
@@ -13,24 +25,118 @@ fn selftest() -> Result<(), String> {
             (h, u, order)
         })
     };
-    let a = probe(7);
-    let b = probe(7);
-    let c = probe(8);
-    let (a, b, c) = (a.result.unwrap(), b.result.unwrap(), c.result.unwrap());
+    let (a, b, c) = (probe(7), probe(7), probe(8));
+    if a.entropy_draws == 0 {
+        return Err("the incarnation made no draw from the seam".into());
+    }
+    let (a, b, c) = (a.result.map_err(|p| p.message)?, b.result.map_err(|p| p.message)?, c.result.map_err(|p| p.message)?);
     if a != b {
         return Err(format!("equal seeds gave different draws: {a:?} vs {b:?}"));
     }
     if a.0 == c.0 || a.1 == c.1 || a.2 == c.2 {
         return Err("different seeds gave equal draws".into());
     }
-    println!("selftest ok: {:x} {}", a.0, a.1);
+    // T2: same seed twice => byte-identical --yaml dump of a two-return function
+    let w = world::World::single("main:\n  jal f\n  li a7, 10\n  ecall\nf:\n  beqz a0, L\n  li a0, 1\n  ret\nL:\n  li a0, 2\n  ret\n");
+    let sb = t2::Sandbox::new(&w).map_err(|e| format!("sandbox: {e}"))?;
+    let flags = vec!["--yaml".to_string()];
+    let run = |e: u64, plan: &[String]| {
+        t2::run_rva(&t2::RvaCall { sandbox: &sb, base: "base.s", flags: &flags, entropy: e, plan, profile: "dev", force_color: false, cpu_seconds: 10 }).map_err(|e| format!("spawn sim-rva: {e}"))
+    };
+    let (x, y) = (run(11, &[])?, run(11, &[])?);
+    if x.abnormal().is_some() {
+        return Err(format!("sim-rva failed on the canary: {:?} {}", x.abnormal(), x.stderr));
+    }
+    if x.stdout != y.stdout || x.stdout.is_empty() {
+        return Err("sim-rva output differs for equal VERIF_ENTROPY_SEED".into());
+    }
+    // the process must have drawn its hash keys and UUIDs through the seam
+    if !x.log.contains("getrandom 1 len") || !x.log.contains("(seeded)") {
+        return Err("sim-rva drew no entropy through the seam (log has no seeded getrandom call)".into());
+    }
+    // file seam canary: a planned fault on the first open must be observed
+    let z = run(11, &["open:1:errno:5".to_string()])?;
+    if !z.log.contains("FAULT errno 5") || z.stdout == x.stdout {
+        return Err("file seam canary: the planned open fault was not observed".into());
+    }
     Ok(())
 }
 
+fn usage() -> ! {
+    eprintln!("usage: simharness check <ID> [--tier quick|thorough] [--runs N] [--workers W] [--max-wall S] | replay <file> | selftest | worker ...");
+    std::process::exit(2)
+}
+
 fn main() {
+    // One malloc arena with a large top pad: incarnation threads otherwise grow a fresh arena by
+    // thousands of 4 KiB mprotect calls each, which dominates the run time inside a VM.
+    unsafe {
+        libc::mallopt(libc::M_ARENA_MAX, 1);
+        libc::mallopt(libc::M_TOP_PAD, 256 << 20);
+        libc::mallopt(libc::M_TRIM_THRESHOLD, 512 << 20);
+        libc::mallopt(libc::M_MMAP_THRESHOLD, 64 << 20);
+    }
     entropy::install_panic_hook();
-    if let Err(e) = selftest() {
-        eprintln!("HARNESS ERROR: entropy seam not in control: {e}");
-        std::process::exit(2);
+    let args: Vec<String> = std::env::args().skip(1).collect();
+    let Some(cmd) = args.first() else { usage() };
+    let master: u64 = std::env::var("VERIF_SEED").ok().and_then(|s| s.parse().ok()).unwrap_or(20_260_925);
+    match cmd.as_str() {
+        "selftest" => match selftest() {
+            Ok(()) => println!("selftest ok"),
+            Err(e) => {
+                eprintln!("HARNESS ERROR: seams not in control: {e}");
+                std::process::exit(2);
+            }
+        },
+        "worker" => {
+            if args.len() < 7 {
+                usage();
+            }
+            let tier = if args[2] == "thorough" { Tier::Thorough } else { Tier::Quick };
+            let p = |i: usize| args[i].parse::<u64>().unwrap_or(0);
+            driver::worker(&args[1], tier, p(3), p(4), p(5), p(6));
+        }
+        "replay" => {
+            let Some(f) = args.get(1) else { usage() };
+            std::process::exit(driver::replay(f));
+        }
+        "check" => {
+            let Some(prop) = args.get(1) else { usage() };
+            if !props::CLAIMED.contains(&prop.as_str()) {
+                eprintln!("HARNESS ERROR: property {prop} is not claimed by this framework");
+                std::process::exit(2);
+            }
+            let mut tier = match std::env::var("VERIF_TIER").as_deref() {
+                Ok("thorough") => Tier::Thorough,
+                _ => Tier::Quick,
+            };
+            let mut runs = None;
+            let mut workers = std::thread::available_parallelism().map_or(8, std::num::NonZero::get);
+            let mut max_wall = None;
+            let mut replay = None;
+            let mut i = 2;
+            while i < args.len() {
+                let v = args.get(i + 1).cloned().unwrap_or_default();
+                match args[i].as_str() {
+                    "--tier" => tier = if v == "thorough" { Tier::Thorough } else { Tier::Quick },
+                    "--runs" => runs = v.parse().ok(),
+                    "--workers" => workers = v.parse().unwrap_or(workers),
+                    "--max-wall" => max_wall = v.parse().ok(),
+                    "--replay" => replay = Some(v),
+                    _ => usage(),
+                }
+                i += 2;
+            }
+            if let Err(e) = selftest() {
+                eprintln!("HARNESS ERROR: seams not in control: {e}");
+                std::process::exit(2);
+            }
+            if let Some(f) = replay {
+                std::process::exit(driver::replay(&f));
+            }
+            let code = driver::check(&driver::CheckOpts { prop: prop.clone(), tier, master, runs, workers, max_wall_s: max_wall });
+            std::process::exit(code);
+        }
+        _ => usage(),
     }
 }
